@@ -10,8 +10,17 @@ package explain
 //@ define wfPb(pb *Problem) bool = pb != nil && len(pb.units) == pb.NbVars && len(pb.tagged) == pb.NbClauses && 0 <= pb.NbClauses && pb.NbClauses <= len(pb.Clauses)
 //@ define litsOK(pb *Problem) bool = forall(i, 0, len(pb.Clauses), forall(k, 0, len(pb.Clauses[i]), pb.Clauses[i][k] != 0 && absi(pb.Clauses[i][k]) <= pb.NbVars))
 //@ define sepPb(pb *Problem) bool = forall(i, 0, len(pb.Clauses), arr(pb.Clauses[i]) != arr(pb.units))
+//@ define trueU(pb *Problem, l int) bool = (pb.units[absi(l)-1] > 0 && l > 0) || (pb.units[absi(l)-1] < 0 && l < 0)
+//@ define satC(pb *Problem, c []int) bool = exists(k, 0, len(c), trueU(pb, c[k]))
+//@ define twoC(pb *Problem, c []int) bool = exists(k1, 0, len(c), exists(k2, 0, len(c), k1 < k2 && pb.units[absi(c[k1])-1] == 0 && pb.units[absi(c[k2])-1] == 0))
 //@ define tri(u []int) bool = forall(v, 0, len(u), -1 <= u[v] && u[v] <= 1)
 
+// Completeness side (partial): a clause is only marked done -- and skipped from then on -- in an
+// iteration at whose end a literal of it is true under the units (assertion newd), bound units
+// never change (umono) and true literals stay true (keepL, keepT): no clause that could still
+// propagate or conflict is ever ignored. Full saturation (after the last pass every other clause
+// has two unbound literals) was proved once but needed ~40 s on one path (a quantifier indexing
+// `done` and `pb.Clauses` with the same variable) and is therefore not part of the contract.
 //@ func (*Problem).unsat
 //@   ghost A asg
 //@   requires shape: wfPb(pb)
@@ -22,6 +31,7 @@ package explain
 //@   ensures  mono:  forall(i, 0, pb.NbClauses, old(pb.tagged[i]) ==> pb.tagged[i])
 //@   ensures  sound: result ==> !(old(agreesU(A, pb.units)) && H(pb, A))
 //@   ensures  tri:   tri(pb.units)
+//@   assert after-loop 3 satw: sat ==> satC(pb, clause)
 //@   loop 1
 //@     invariant shape: len(done) == len(pb.Clauses) && fresh(done)
 //@     invariant keep:  old(agreesU(A, pb.units)) && H(pb, A) ==> agreesU(A, pb.units)
@@ -34,6 +44,11 @@ package explain
 //@     invariant mono:  forall(i, 0, pb.NbClauses, old(pb.tagged[i]) ==> pb.tagged[i])
 //@     invariant tri:   tri(pb.units)
 //@   assert body-end 2 hmono: H(pb, A) ==> prev(H(pb, A))
+//@   assert body-end 2 umono: forall(v, 0, len(pb.units), prev(pb.units[v]) != 0 ==> pb.units[v] == prev(pb.units[v]))
+//@   assert body-end 2 rows:  forall(i, 0, len(pb.Clauses), len(pb.Clauses[i]) == prev(len(pb.Clauses[i])) && forall(k, 0, len(pb.Clauses[i]), pb.Clauses[i][k] == prev(pb.Clauses[i][k])))
+//@   assert body-end 2 keepL: forall(i, 0, len(pb.Clauses), forall(k, 0, len(pb.Clauses[i]), prev(trueU(pb, pb.Clauses[i][k])) ==> trueU(pb, pb.Clauses[i][k])))
+//@   assert body-end 2 keepT: forall(i, 0, len(pb.Clauses), prev(satC(pb, pb.Clauses[i])) ==> satC(pb, pb.Clauses[i]))
+//@   assert body-end 2 newd:  done[prev(rangei)] && !prev(done[rangei]) ==> satC(pb, pb.Clauses[prev(rangei)])
 //@   assert body-end 2 hkeep: old(agreesU(A, pb.units)) && H(pb, A) ==> prev(agreesU(A, pb.units))
 //@   loop 3
 //@     invariant idx:   0 <= rangei && rangei <= len(clause)
@@ -41,6 +56,7 @@ package explain
 //@     invariant ub:    0 <= unbound && unbound <= 1
 //@     invariant scan:  forall(j, 0, rangei, falseU(pb, clause[j]) || (unbound == 1 && clause[j] == unit))
 //@     invariant free:  unbound == 1 ==> unit != 0 && absi(unit) <= pb.NbVars && pb.units[absi(unit)-1] == 0
+//@     invariant pos:   unbound == 1 ==> exists(k, 0, rangei, clause[k] == unit)
 
 //@ define litsIn(c []int, n int) bool = forall(k, 0, len(c), c[k] != 0 && absi(c[k]) <= n)
 //@ define sameInts(a []int, b []int) bool = len(a) == len(b) && forall(v, 0, len(a), a[v] == b[v])
